@@ -20,6 +20,13 @@ CHECKS = {
         "design_ref": "DESIGN.md section 4, C12",
         "note": "trusted: z3, symx, the recipe oracle, Python's dataclass field ordering rule (re-implemented in models/classgen.flatten); classes beyond the bound are outside the claim",
     },
+    "C03": {
+        "engine": "symx (engine P)",
+        "technique": "bounded symbolic exploration of operation histories on the real registry code (symx decision tree over operation/receiver/argument selectors, lazy symbolic `strict`) with a ghost-state oracle checked after every step",
+        "text": "Every history of K public operations (construct, parent, duplicate, dataclasses.replace, ASTNode.replace succeeding/raising, detach, detach_self on live or stale receivers, as_dict/as_obj, drop) within the bound, under ID_DIGEST_SIZE 1 and 8, keeps the registry equal to the ghost state after every step. For selector-only harnesses the all-paths verdict coincides with exhaustive bounded enumeration of histories (stated in DESIGN.md section 6).",
+        "design_ref": "DESIGN.md section 4, C03",
+        "note": "trusted: symx, ghost-state oracle (appendix A.5), CPython refcounting; bounds: K<=4 all / K=5 partially (quick), K<=5 all / K=6 partially (thorough), <=4 handles, two node classes",
+    },
 }
 NOT_APPLICABLE = {
     "C11": "input is a class definition consumed by typing/abc introspection (get_origin/get_args/get_type_hints/issubclass): no engine can keep an annotation symbolic, every path would be one concrete class definition, i.e. enumeration of concrete runs rather than a solver verdict (DESIGN.md section 5)",
